@@ -1581,6 +1581,66 @@ Section Restart.
       destruct (ov_lock_range ov); [apply Hc | reflexivity].
   Qed.
 
+  (* ---- restart clears the output variables whatever the rule blocks are — none, or blocks without rules *)
+  Theorem restart_with_blocks (e : engine T) (bs : list (block T)) :
+    e_inputs (restart (with_blocks e bs)) = e_inputs (restart e) /\
+    e_outputs (restart (with_blocks e bs)) = e_outputs (restart e) /\
+    e_blocks (restart (with_blocks e bs)) = map (@block_deactivated T N) bs.
+  Proof. repeat split. Qed.
+
+  Theorem restart_without_blocks_state (e : engine T) :
+    restarted_state (restart (with_blocks e [])) /\ e_blocks (restart (with_blocks e [])) = [] /\
+    List.length (e_outputs (restart (with_blocks e []))) = List.length (e_outputs e).
+  Proof.
+    split; [apply restart_state|]. split; [reflexivity|].
+    unfold restart, with_blocks. cbn [e_outputs]. apply map_length.
+  Qed.
+
+  Lemma map_set_nth_inv {A B : Type} (f : A -> B) (l : list A) i x y :
+    nth_error l i = Some y -> f x = f y -> map f (set_nth i x l) = map f l.
+  Proof.
+    revert i; induction l as [|a l IH]; intros [|i] Hn Hf; cbn in *; try discriminate.
+    - injection Hn as ->. rewrite Hf. reflexivity.
+    - rewrite (IH i Hn Hf). reflexivity.
+  Qed.
+
+  (* a state assigned by hand (value, previous value, one more activated term) is erased by restart *)
+  Theorem restart_erases_hand_state (e : engine T) oi ov v p t d :
+    nth_error (e_outputs e) oi = Some ov ->
+    restart (with_outputs e (set_nth oi (ov_with_state ov v p t d) (e_outputs e))) = restart e.
+  Proof.
+    intros Hn. unfold restart, with_outputs. cbn [e_name e_inputs e_outputs e_blocks]. f_equal.
+    apply (map_set_nth_inv ov_cleared _ _ _ _ Hn). reflexivity.
+  Qed.
+
+  (* the scripts of the correspondence: remove the rule blocks (or the rules of a block) of a used engine, or assign an
+     output's state by hand, then restart: the current engine is the restarted / freshly built block-less engine, its
+     outputs those of `restart e` *)
+  Theorem run_remove_blocks_restart (s : @store T) e :
+    nth_error (fst s) (snd s) = Some e ->
+    exists s1 s2, run s [ORemoveBlocks; ORestart] = [Ok s1; Ok s2] /\
+                  nth_error (fst s2) (snd s2) = Some (fresh (with_blocks e [])) /\
+                  e_outputs (fresh (with_blocks e [])) = e_outputs (restart e).
+  Proof.
+    intros He. pose proof (nth_error_lt _ _ _ He) as Hlt.
+    cbn [Ops.run Ops.step]. unfold upd at 1. rewrite He. cbn [bind fst snd].
+    unfold upd at 1. cbn [fst snd]. rewrite (nth_error_set_nth_eq _ _ _ Hlt). cbn [bind fst snd].
+    eexists. eexists. split; [reflexivity|]. cbn [fst snd]. split; [|reflexivity].
+    rewrite set_nth_twice. apply nth_error_set_nth_eq. exact Hlt.
+  Qed.
+
+  Theorem run_set_state_restart (s : @store T) e oi ov v p ti t d :
+    nth_error (fst s) (snd s) = Some e -> nth_error (e_outputs e) oi = Some ov -> nth_error (ov_terms ov) ti = Some t ->
+    exists s1 s2, run s [OSetOutputState oi v p ti d; ORestart] = [Ok s1; Ok s2] /\
+                  nth_error (fst s2) (snd s2) = Some (restart e).
+  Proof.
+    intros He Ho Ht. pose proof (nth_error_lt _ _ _ He) as Hlt.
+    cbn [Ops.run Ops.step]. unfold upd at 1. rewrite He, Ho, Ht. cbn [bind fst snd].
+    unfold upd at 1. cbn [fst snd]. rewrite (nth_error_set_nth_eq _ _ _ Hlt). cbn [bind fst snd].
+    eexists. eexists. split; [reflexivity|]. cbn [fst snd].
+    rewrite set_nth_twice, (restart_erases_hand_state e oi ov v p t d Ho). apply nth_error_set_nth_eq. exact Hlt.
+  Qed.
+
   (* ---- the store: every operation touches the CURRENT engine only; a copy is appended and made current.
      Engines are values, so this is true by construction of the model: that the Python object graphs of an engine and of
      its deepcopy share no mutable object is NOT a theorem here — it is what the correspondence checks. *)
